@@ -109,6 +109,7 @@ func validOnly(in []num) []num {
 }
 
 func c14(r *engine.Run) {
+	r.RaceWorkload = "signatures" // supplement: free-running race-detector pass over the same API (can only add findings)
 	if err := bip.SelfCheck(nil); err != nil {
 		r.Broken("reference model self-check failed: %v", err)
 		r.Finish(nil)
